@@ -30,7 +30,7 @@ from ..result import finish
 
 ID = "C17"
 ENGINE = "fac"
-RUNS = {"quick": 2400, "thorough": 100000}
+RUNS = {"quick": 2400, "thorough": 60000}
 RULE_TEXT = ("one run = one seeded plan: 2-3 real GN+BTP stations each with the real DEN service (receivers with an LDM), "
              "1-6 DEN requests (emergency-vehicle application, direct DENRequest, collision-risk) with interval 100..10000 ms, "
              "duration 0..60 s, positions near the stations and over the signed WGS-84 range, overlapping in time, plus clock jumps, "
